@@ -6,7 +6,7 @@ from fractions import Fraction
 
 import numpy as np
 
-from common import Ctx, enc, run_model, ModelError, import_amisc
+from common import Ctx, enc, q, unq, run_model, ModelError, import_amisc
 import systems
 
 
@@ -43,6 +43,7 @@ def run_main(ctx: Ctx):
                 'is checked with the extracted is_topological (Model/Sys.v); trained systems: surrogate prediction versus manual chaining of '
                 'Component.predict; non-trivial = at least one component consumes another component\'s output')
     lines, meta = [], []
+    flines, fmeta = [], []
     for n in range(nsys):
         logs = {}
         ncomp = rng.randint(2, 5)
@@ -126,6 +127,24 @@ def run_main(ctx: Ctx):
         for o in outs_all:
             if not systems.floats_close(y_raw[o], y_nrm[o], rtol=1e-9, atol=1e-9):
                 ctx.violate('C07:raw-vs-normalised', f'output {o}: {np.asarray(y_raw[o]).tolist()} from raw inputs, {np.asarray(y_nrm[o]).tolist()} from normalised inputs', case)
+        # ---- functional correspondence: Model/Sys.v eval (instantiated in Model/SysRun.v with the polynomial models and the variables'
+        # normalisation chains, Model/Transf.v) run on the same inputs in exact rationals: raw inputs, normalised inputs (tagged so that
+        # the model denormalises them as _gather_comp_inputs does), and a requested-output subset (early exit)
+        import c16
+        vobj = {str(v): v for v in system.variables()}
+        tab = []
+        for v in allvars:
+            ch, hy = c16.model_chain(vobj[v]) if vobj[v].norm else ([], [[], []])
+            tab.append([ch, hy])
+        mcomps = [[cid[s['name']], [num[v] for v in s['inputs']], [num[v] for v in s['outputs']],
+                   [[[q(Fraction(c)), list(e)] for c, e in s['terms'][o]] for o in s['outputs']], 1] for s in spec]
+        sub = rng.sample(outs_all, rng.randint(1, len(outs_all)))
+        y_sub = system.predict(xnorm, use_model='best', normalized_inputs=True, targets=sub)
+        for j in range(N):
+            for tag, xin, yimpl, tg in ((0, xraw, y_raw, outs_all), (1, xnorm, y_nrm, outs_all), (1, xnorm, y_sub, sub)):
+                env0 = [[num[k], tag, q(Fraction(float(np.ravel(v)[j])))] for k, v in xin.items()]
+                flines.append('sys_eval ' + enc([tab, mcomps, [cid[s['name']] for s in spec], env0, [num[o] for o in tg], [num[o] for o in tg]]))
+                fmeta.append(({**case, 'sample': j, 'inputs_normalised': bool(tag), 'targets': list(tg)}, [float(np.ravel(yimpl[o])[j]) for o in tg], list(tg)))
         # ---- trained surrogate: prediction = manual chaining of Component.predict in dependency order; per-component overrides
         if n % 2 == 0:
             np.random.seed(ctx.seed * 13 + n)
@@ -163,6 +182,16 @@ def run_main(ctx: Ctx):
             ctx.disagree('C07:evaluation-order-not-topological', case, 'is_topological = false', case['call_order'])
         if len(case['call_order']) != ncomp or len(set(case['call_order'])) != ncomp:
             ctx.violate('C07:component-not-called-once', f'components were called in the sequence {case["call_order"]}', case)
+    for (case, yimpl, names), mo in zip(fmeta, run_model(flines, shards=8) if flines else []):
+        ctx.count('evaluations_compared')
+        if isinstance(mo, ModelError):
+            ctx.disagree('C07:model-error', case, str(mo), None); continue
+        if not mo or any(not v for v in mo[0]):
+            ctx.disagree('C07:System.predict values', case, 'model evaluation stuck or target not computed', yimpl); continue
+        mv = [unq(v[0]) for v in mo[0]]
+        sc = max([abs(t) for t in mv] + [Fraction(1)])
+        if any(not (a == a and abs(Fraction(a) - m) <= Fraction(1, 10 ** 9) * (abs(m) + sc)) for a, m in zip(yimpl, mv)):
+            ctx.disagree('C07:System.predict values', case, {n_: float(m) for n_, m in zip(names, mv)}, dict(zip(names, yimpl)))
 
 
 def run_nan_listing(ctx: Ctx):
